@@ -5,13 +5,14 @@
 //! script: {"records": [{"id": "A", "state": {..}, "live": bool}, ...],
 //!          "op": {"name": "load|create|update|update_ttl|delete|change_id|delete_expired", "id": "A", "to": "B",
 //!                 "state": {..}, "batch": 0|1|2}}
-//! A record that the counterexample had as expired is created with a 1 ms ttl and the replayer
-//! sleeps 30 ms before the operation; a live one gets an hour. The real clock cannot be stopped at
-//! "exactly the deadline": such counterexamples are replayed as "expired" (deadline <= now).
+//! The store is the real crate with one token rewritten: it reads the time from a settable clock
+//! (`verif_clock`, see lib/vf/session.py) instead of `Timestamp::now()`, so that a counterexample
+//! that needs the clock to stand exactly on a deadline can be replayed: every record is created at
+//! instant `deadline - 1` with a ttl of one second, then the clock is set to the script's `now`.
 use pavex_session::store::errors::*;
 use pavex_session::store::{SessionRecordRef, SessionStorageBackend};
 use pavex_session::SessionId;
-use pavex_session_memory_store::InMemorySessionStore;
+use pavex_session_memory_store_clocked::{InMemorySessionStore, verif_clock};
 use serde_json::{Value, json};
 use std::borrow::Cow;
 use std::collections::{BTreeMap, HashMap};
@@ -37,64 +38,79 @@ async fn view(s: &InMemorySessionStore, l: &str) -> Option<Map> {
     s.load(&id_of(l)).await.unwrap().map(|r| r.state.iter().map(|(k, v)| (k.to_string(), v.clone())).collect())
 }
 
+/// reference map: label -> (state, deadline); a record is live while now < deadline
+type Model = BTreeMap<String, Option<(Map, i64)>>;
+fn live(m: &Model, l: &str, t: i64) -> Option<Map> {
+    match &m[l] {
+        Some((st, d)) if *d > t => Some(st.clone()),
+        _ => None,
+    }
+}
+
 async fn run(script: &Value) -> Result<(), Fail> {
     let s = InMemorySessionStore::new();
-    // model: label -> Some(state) if live
-    let mut model: BTreeMap<String, Option<Map>> = BTreeMap::from([("A".to_string(), None), ("B".to_string(), None)]);
-    let mut stale: BTreeMap<String, bool> = BTreeMap::new();
+    let mut model: Model = BTreeMap::from([("A".to_string(), None), ("B".to_string(), None)]);
+    let now = script["_origin"]["now"].as_i64().unwrap_or(500);
     for r in script["records"].as_array().cloned().unwrap_or_default() {
         let l = r["id"].as_str().unwrap_or("A").to_string();
         let st = map_of_json(&r["state"]);
-        let live = r["live"].as_bool().unwrap_or(true);
-        s.create(&id_of(&l), SessionRecordRef { state: Cow::Owned(to_state(&st)), ttl: if live { HOUR } else { Duration::from_millis(1) } })
+        let deadline = r["_deadline"].as_i64().unwrap_or(if r["live"].as_bool().unwrap_or(true) { now + 50 } else { now });
+        verif_clock::set(deadline - 1);
+        s.create(&id_of(&l), SessionRecordRef { state: Cow::Owned(to_state(&st)), ttl: Duration::from_secs(1) })
             .await
             .map_err(|e| Fail(format!("script error: {e:?}")))?;
-        if live {
-            model.insert(l.clone(), Some(st));
-        }
-        stale.insert(l, !live);
+        model.insert(l, Some((st, deadline)));
     }
-    tokio::time::sleep(Duration::from_millis(30)).await;
+    verif_clock::set(now);
+    let n_stale = model.values().filter(|r| matches!(r, Some((_, d)) if *d <= now)).count();
     let op = &script["op"];
     let name = op["name"].as_str().unwrap_or("");
     let l = op["id"].as_str().unwrap_or("A").to_string();
     let to = op["to"].as_str().unwrap_or("B").to_string();
     let st = map_of_json(&op["state"]);
-    let live = model[&l].is_some();
+    let is_live = live(&model, &l, now).is_some();
+    let fresh = now + HOUR.as_secs() as i64;
     match name {
         "load" => {
-            let got = view(&s, &l).await;
-            check!(got == model[&l], "load returned {got:?}, the reference map holds {:?}", model[&l]);
+            let got = s.load(&id_of(&l)).await.unwrap();
+            let want = live(&model, &l, now);
+            let got_state: Option<Map> = got.as_ref().map(|r| r.state.iter().map(|(k, v)| (k.to_string(), v.clone())).collect());
+            check!(got_state == want, "load returned {got_state:?}, the reference map holds {want:?}");
+            if let (Some(r), Some((_, d))) = (&got, &model[&l]) {
+                check!(r.ttl.as_secs() as i64 == d - now, "load reported a remaining ttl of {:?}, the record's deadline is {} s away", r.ttl, d - now);
+            }
         }
         "create" => {
             let r = s.create(&id_of(&l), SessionRecordRef { state: Cow::Owned(to_state(&st)), ttl: HOUR }).await;
-            if live {
+            if is_live {
                 check!(matches!(r, Err(CreateError::DuplicateId(_))), "create on a live record returned {r:?}");
             } else {
                 check!(r.is_ok(), "create failed although no live record holds the id: {r:?}");
-                model.insert(l.clone(), Some(st.clone()));
+                model.insert(l.clone(), Some((st.clone(), fresh)));
             }
         }
         "update" => {
             let r = s.update(&id_of(&l), SessionRecordRef { state: Cow::Owned(to_state(&st)), ttl: HOUR }).await;
-            if live {
+            if is_live {
                 check!(r.is_ok(), "update failed on a live record: {r:?}");
-                model.insert(l.clone(), Some(st.clone()));
+                model.insert(l.clone(), Some((st.clone(), fresh)));
             } else {
                 check!(matches!(r, Err(UpdateError::UnknownIdError(_))), "update on an absent/expired record returned {r:?}");
             }
         }
         "update_ttl" => {
             let r = s.update_ttl(&id_of(&l), HOUR).await;
-            if live {
+            if is_live {
                 check!(r.is_ok(), "update_ttl failed on a live record: {r:?}");
+                let cur = model[&l].clone().unwrap().0;
+                model.insert(l.clone(), Some((cur, fresh)));
             } else {
                 check!(matches!(r, Err(UpdateTtlError::UnknownId(_))), "update_ttl on an absent/expired record returned {r:?}");
             }
         }
         "delete" => {
             let r = s.delete(&id_of(&l)).await;
-            if live {
+            if is_live {
                 check!(r.is_ok(), "delete failed on a live record: {r:?}");
                 model.insert(l.clone(), None);
             } else {
@@ -103,10 +119,10 @@ async fn run(script: &Value) -> Result<(), Fail> {
         }
         "change_id" => {
             let r = s.change_id(&id_of(&l), &id_of(&to)).await;
-            let live_to = model[&to].is_some();
+            let live_to = live(&model, &to, now).is_some();
             if live_to {
                 check!(matches!(r, Err(ChangeIdError::DuplicateId(_))), "change_id onto a live record returned {r:?}");
-            } else if !live {
+            } else if !is_live {
                 check!(matches!(r, Err(ChangeIdError::UnknownId(_))), "change_id of an absent/expired record returned {r:?}");
             } else {
                 check!(r.is_ok(), "change_id failed although the source is live and the target free: {r:?}");
@@ -117,22 +133,20 @@ async fn run(script: &Value) -> Result<(), Fail> {
         }
         "delete_expired" => {
             let b = op["batch"].as_u64().unwrap_or(0) as usize;
-            let n_stale = stale.values().filter(|x| **x).count();
             let r = s.delete_expired(std::num::NonZeroUsize::new(b)).await;
             let want = if b == 0 { n_stale } else { n_stale.min(b) };
-            check!(matches!(r, Ok(n) if n == want), "delete_expired returned {r:?}, expected Ok({want})");
+            check!(matches!(r, Ok(n) if n == want), "delete_expired returned {r:?}, expected Ok({want}) ({n_stale} expired records, batch {b})");
         }
         other => return Err(Fail(format!("script error: unknown op {other}"))),
     }
-    for l in ["A", "B"] {
-        let got = view(&s, l).await;
-        check!(got == model[l], "after {name}: record {l} is observed as {got:?}, the reference map holds {:?}", model[l]);
-    }
-    // a stale record must never come back: look again a little later
-    tokio::time::sleep(Duration::from_millis(5)).await;
-    for l in ["A", "B"] {
-        let got = view(&s, l).await;
-        check!(got == model[l], "a little later: record {l} is observed as {got:?}, the reference map holds {:?}", model[l]);
+    // what an observer sees now, half a fresh ttl later, and two fresh ttls later
+    for t in [now, now + 1, now + 1800, now + 7200] {
+        verif_clock::set(t);
+        for l in ["A", "B"] {
+            let got = view(&s, l).await;
+            let want = live(&model, l, t);
+            check!(got == want, "after {name}, at instant {t} (operation at {now}): record {l} is observed as {got:?}, the reference map holds {want:?}");
+        }
     }
     Ok(())
 }
